@@ -494,8 +494,24 @@ func (in *interp) callBuiltin(caller *frame, callpos token.Pos, fn *ssa.Builtin,
 				x.nsym = 0
 			}
 		case []value:
-			// element type zero unknown here: approximate using existing shapes
-			in.unsupported("clear(slice)")
+			for i, e := range x {
+				switch ev := e.(type) {
+				case *Term:
+					if ev.w == 0 {
+						x[i] = ts.False
+					} else {
+						x[i] = ts.BV(0, ev.w)
+					}
+				case *value:
+					x[i] = (*value)(nil)
+				case string, symstr:
+					x[i] = ""
+				case float64:
+					x[i] = float64(0)
+				default:
+					in.unsupported(fmt.Sprintf("clear(slice) with elements of kind %T", e))
+				}
+			}
 		}
 		return nil
 
